@@ -17,6 +17,10 @@ ASCII = frozenset(chr(i) for i in range(128))
 #   lower    what MUST stay literal for an already-canonical URL (requoters only)  [C04]
 #   protect  characters whose escaped and literal forms must both be kept          [C02: '/' in path segments;
 #            '&', '=', '+', ';' in queries]
+#   keep     sub-delimiters whose escape in an already-canonical URL must be left alone although the statement of C02
+#            does not list them: '+' in a path. '%2B' and '+' are different data for every consumer that form-decodes
+#            ('+' = space); the package documents "already encoded URL is not changed" and its own path unquoters
+#            treat '+' specially (unsafe="+").                                      [C04]
 #   term     characters that end the component for the parser (must never be literal)  [C03/C07]
 ROLES = {
     # userinfo = *( unreserved / pct-encoded / sub-delims / ":" ); ':' separates user and password, so for the
@@ -24,7 +28,7 @@ ROLES = {
     "userinfo": dict(upper=UNRESERVED | SUB_DELIMS, lower=UNRESERVED | SUB_DELIMS, protect=frozenset(),
                      term=frozenset(":@/?#")),
     # path = *( "/" segment ), segment = *pchar (3.3)
-    "path": dict(upper=PCHAR | {"/"}, lower=PCHAR | {"/"}, protect=frozenset("/"), term=frozenset("?#")),
+    "path": dict(upper=PCHAR | {"/"}, lower=PCHAR | {"/"}, protect=frozenset("/"), keep=frozenset("+"), term=frozenset("?#")),
     # query = *( pchar / "/" / "?" ) (3.4)
     "query": dict(upper=PCHAR | frozenset("/?"), lower=PCHAR | frozenset("/?"), protect=frozenset("&=+;"),
                   term=frozenset("#")),
